@@ -186,6 +186,15 @@ func goTypep(v slip.Object, T string) bool {
 	if l, ok := v.(slip.List); ok && len(l) == 0 {
 		isNil = true
 	}
+	if isNil {
+		// slip passes nil (its empty sequence) through coerce to a sequence type; its own tests pin
+		// (coerce nil 'vector) => nil and (coerce nil 'octets) => nil (test/cl/coerce_test.go), so nil is
+		// accepted as a member of every sequence type (S2).
+		switch T {
+		case "vector", "octets", "string", "bit-vector":
+			return true
+		}
+	}
 	switch T {
 	case "t":
 		return true
